@@ -1480,7 +1480,11 @@ fn read_symbols<'data, P: Platform>(
                 output_kind,
             )
         })
-        .collect::<Result<Vec<SymbolLoadOutputs>>>()
+        // Collect all results, then take the first error in group order. Collecting straight into a
+        // `Result` would return whichever error a thread happened to hit first.
+        .collect::<Vec<Result<SymbolLoadOutputs>>>()
+        .into_iter()
+        .collect()
 }
 
 fn read_symbols_for_group<'data, P: Platform>(
